@@ -109,8 +109,60 @@ def _txn_strings_grid(ctx):
                                 f'the printed text {text.splitlines()[0]!r} re-reads as {got}', {'probe': 'txn-strings', 'form': form, 'seq': [list(x) for x in seq]})
 
 
+def _custom_constructor_grid(ctx):
+    """Custom.from_value / from_children are the documented disambiguating path (a sign-leading number after a number is put
+    in parentheses): every value sequence of length <= 3 over a small alphabet, and every length-4 sequence of numbers and
+    amounts, prints to text that re-reads as the same values (alone and appended to a file).  The recorded finding is about
+    values inserted through the wrappers afterwards, never about a freshly constructed entry."""
+    import itertools, datetime
+    p = edits.P()
+    D = decimal.Decimal
+    alpha = {
+        'n1': lambda: D(1), 'n-2': lambda: D(-2), 'n-0.5': lambda: D('-0.5'),
+        'a-3': lambda: models.Amount.from_value(D(-3), 'USD'), 'a4': lambda: models.Amount.from_value(D(4), 'USD'),
+        'raw+5': lambda: p.parse('+5', models.NumberExpr), 'raw(6)': lambda: p.parse('(6)', models.NumberExpr),
+        's': lambda: 'str', 'b': lambda: True, 'd': lambda: datetime.date(2001, 2, 3),
+        'acc': lambda: models.Account.from_value('Assets:A'),
+    }
+    numeric = ['n1', 'n-2', 'a-3', 'raw+5', 'raw(6)']
+    seqs = [q for n in (1, 2, 3) for q in itertools.product(alpha, repeat=n)] + list(itertools.product(numeric, repeat=4))
+
+    def canon(v):
+        return intro.pr(v) if isinstance(v, models.RawModel) else repr(v)
+    for q in seqs:
+        for via in ('value', 'children'):
+            vals = [alpha[k]() for k in q]
+            try:
+                if via == 'value':
+                    c = models.Custom.from_value(datetime.date(2000, 1, 1), 't', vals)
+                else:
+                    raws = [v if isinstance(v, models.RawModel) else
+                            (models.EscapedString.from_value(v) if isinstance(v, str) else
+                             models.Bool.from_value(v) if isinstance(v, bool) else
+                             models.Date.from_value(v) if isinstance(v, datetime.date) else
+                             models.NumberExpr.from_value(v)) for v in vals]
+                    c = models.Custom.from_children(models.Date.from_value(datetime.date(2000, 1, 1)), models.EscapedString.from_value('t'), raws)
+            except Exception as e:
+                ctx.oracle_fail(f'C06:custom-constructor:raises:{type(e).__name__}', f'{via} {q}: {e}', {'probe': 'custom-constructor', 'seq': list(q), 'via': via})
+                continue
+            ctx.case(('custom-constructor', via, len(q), tuple(k[0] for k in q)))
+            want = [canon(v) for v in c.values]
+            f = models.File.from_value([c])
+            text = intro.pr(f)
+            try:
+                again = p.parse(text, models.File)
+                got = [canon(v) for v in again.directives[0].values]
+            except Exception as e:
+                got = f'does not parse: {type(e).__name__}'
+            if got != want:
+                ctx.oracle_fail('C06:custom-constructor:reparse', f'Custom.from_{via} with values {list(q)}: the model holds {want}, the printed text {text!r} '
+                                f're-reads as {got}', {'probe': 'custom-constructor', 'seq': list(q), 'via': via})
+                return
+
+
 def run(ctx):
     _txn_strings_grid(ctx)
+    _custom_constructor_grid(ctx)
     session.run_sessions(ctx, ctx.scale(220, 5000), ctx.scale(12, 30), ['reparse', 'fresh'], syntax_preserving=True, auto_claim_only=True)
     slicegrid.run(ctx, ['reparse'], syntax_preserving=True)
     import slotgrid
@@ -126,10 +178,10 @@ def search(ctx, hints):
 
 def replay(ctx, data):
     rep = data.get('replay') or data
-    if rep.get('probe') == 'txn-strings':
+    if rep.get('probe') in ('txn-strings', 'custom-constructor'):
         import check
         c = check.Ctx('C06', 'quick', ctx.seed)
-        _txn_strings_grid(c)
+        (_txn_strings_grid if rep['probe'] == 'txn-strings' else _custom_constructor_grid)(c)
         return not c.oracle_fails
     if rep.get('probe'):
         c = type('C', (), {'oracle_fails': [], 'case': lambda *a, **k: None, 'oracle_fail': lambda self, *a: self.oracle_fails.append(a)})()
